@@ -225,6 +225,7 @@ type world struct {
 	tags   map[string]bool
 	site   string
 	leases uint64
+	leased map[[2]uint64]bool // outpoints under a (one hour) lease placed by the script
 	opIdx  int
 	payee  []byte
 }
@@ -270,7 +271,7 @@ func newWorld(seed int64) (*world, error) {
 	}
 	wd := &world{env: env, w: env.W, ids: map[chainhash.Hash]uint64{}, nextID: 1,
 		byHash: map[chainhash.Hash]*txInfo{}, spentC: map[wire.OutPoint]bool{},
-		oracle: map[string]bool{}, tags: map[string]bool{}, r: gen.New(seed, 2020)}
+		oracle: map[string]bool{}, tags: map[string]bool{}, r: gen.New(seed, 2020), leased: map[[2]uint64]bool{}}
 	wd.ch = &backend{Chain: simchain.New(env.Params)}
 	wd.payee = append([]byte{0x00, 0x14}, wd.r.Bytes(20)...)
 	if err := wd.attach(); err != nil {
@@ -607,6 +608,7 @@ func (wd *world) lease(op [2]uint64, src string) error {
 		return fmt.Errorf("LeaseOutput: %v", err)
 	}
 	wd.tags["lease"] = true
+	wd.leased[op] = true
 	_, err = wd.emit(evOut{K: "lease", LID: wd.leases, Op: op, Dur: 3600000}, src)
 	return err
 }
@@ -723,7 +725,11 @@ func (wd *world) judgeAttempt(ti *txInfo, class string, before, after snapshot, 
 				}
 			}
 			for _, c := range ti.out.Creds {
-				delta += ti.out.Outs[c[0]]
+				// an output that is still under a lease from an earlier life
+				// of this transaction does not count towards the balance
+				if !wd.leased[[2]uint64{ti.id, c[0]}] {
+					delta += ti.out.Outs[c[0]]
+				}
 				cnt := 0
 				for _, u := range after.Utxos {
 					if u.Op == [2]uint64{ti.id, c[0]} {
@@ -1139,7 +1145,7 @@ func (wd *world) opRestart(op opIn) error {
 	wd.w.SynchronizeRPC(wd.ch)
 	wd.ch.Chain.Notify(chain.ClientConnected{})
 	want := len(before.Unmined)
-	deadline := time.Now().Add(20 * time.Second)
+	deadline := time.Now().Add(6 * time.Second)
 	for time.Now().Before(deadline) {
 		if wd.w.ChainSynced() && wd.ch.sentCount()-n0 >= want {
 			break
